@@ -15,13 +15,13 @@ CHECKS = {
  "C03": dict(technique="runtime monitoring: mutation monitor over authentic tokens (operator/region oracle by construction, tolerated classes) plus a trace rule on the keystream hook (no decryption event during a rejected call) and a validator call log",
    text="Authentic base tokens of all 8 protocols are altered by exhaustive operators (all single-bit flips, all single-character substitutions, all prefixes, boundary shifts, splices, footer swaps, non-canonical base64, signature re-encodings) and seeded random edits; every mutant is presented to the real entry points at all three layers. A mutant must be rejected with a non-plaintext error, without a keystream event and without any validator call; only the two tolerated classes may be accepted, and only with the original content. quick ~7.5e5 evaluations.",
    note="authenticity of base tokens comes from the library itself; unforgeability of the primitives is assumed; hook placement inside CipherText::from", ref="DESIGN.md section 4 C03"),
- "C04": dict(technique="runtime monitoring: wrong-key monitor (oracle by construction: any acceptance under a different key is a violation) over all single-bit key neighbours and key pools at all three layers, plus parser sessions (one parser object, the same token under the right key, another key, the right key again)",
+ "C04": dict(technique="runtime monitoring: wrong-key monitor (oracle by construction: any acceptance under a different key is a violation) over all single-bit key neighbours, key pools, ECDSA keys recovered from the token's own signature and short-plaintext sweeps at all three layers, plus parser sessions (one parser object, the same token under the right key, another key, the right key again; long sessions; two parser objects alive at once)",
    text="Authentic tokens are presented under every single-bit neighbour of their key (symmetric, Ed25519, P-384 point, RSA DER), all-zero/all-one/random/rotated/half-zeroed keys and every other pool key; one parser object is handed the same token under changing keys and must answer like a fresh parser each time. quick ~1e5 evaluations.",
    note="forgery resistance of the primitives assumed; different encodings of the same key are out of scope", ref="DESIGN.md section 4 C04"),
- "C05": dict(technique="runtime monitoring: footer monitor (string-equality oracle in the harness, own base64url encoder) over the footer catalogue squared at all three layers, footer-segment edits (incl. non-canonical encodings and long extensions), parser sessions with a changing expected footer and builders used three times",
+ "C05": dict(technique="runtime monitoring: footer monitor (string-equality oracle in the harness, own base64url encoder) over the footer catalogue squared at all three layers, footer-segment edits (incl. non-canonical encodings and long extensions), a footer length sweep, parser sessions with a changing expected footer (also two parser objects alive at once) and builders used three times",
    text="For every protocol and layer a token is built with each catalogue footer and parsed with every catalogue footer; accept iff equal (none == empty). The footer segment of each produced token is compared with the harness's own encoder; removed/emptied/replaced/extended/truncated/padded/non-canonical/added footer segments must fail; one parser whose expected footer changes between parses; three tokens from one builder must all carry the footer. quick ~1.5e5 evaluations.",
    note="empty 4th segment for an explicitly empty footer is decided by C08", ref="DESIGN.md section 4 C05"),
- "C06": dict(technique="runtime monitoring: implicit-assertion monitor (string-equality oracle; length, substring and ciphertext-prefix checks; re-split attack) for v3/v4 at all three layers, plus parser sessions with a changing assertion and builders used three times",
+ "C06": dict(technique="runtime monitoring: implicit-assertion monitor (string-equality oracle; length, substring and ciphertext-prefix checks; re-split attacks incl. across a PAE length prefix; assertion length sweep) for v3/v4 at all three layers, plus parser sessions with a changing assertion (also two parser objects alive at once) and builders used three times",
    text="Accept iff the supplied assertion equals the one used at build time (catalogue squared); token length independent of the assertion; assertion bytes (raw and base64url at 3 alignments) absent from token and decoded payload; nonce||ciphertext identical across assertions with a fixed nonce; (footer, assertion) re-splits rejected; one parser whose assertion is changed/cleared between parses of the same token; three tokens from one builder all bound. quick ~3e4 evaluations.",
    note="random assertions >= 12 base64 characters (chance occurrence < 2^-60)", ref="DESIGN.md section 4 C06"),
  "C07": dict(technique="runtime monitoring: cross-protocol monitor over all 56 ordered protocol pairs (exhaustive), verbatim and relabelled tokens (each first accepted by its own protocol), shared key material, layout-aligned message lengths, three layers",
@@ -33,7 +33,7 @@ CHECKS = {
  "C09": dict(technique="runtime monitoring: panic/crash monitor (catch_unwind + panic-location hook + parent-side death detection; thorough adds a plain-release pass, valgrind memcheck and a Miri pass over the ring-free paths) over hostile token strings at all 24 entry points and Key::<N>::try_from",
    text="Any Ok/Err is accepted, a panic or process death is the violation. Exhaustive over decoded payload lengths 0..=400 per protocol x fill x footer, every prefix of authentic tokens, hex strings of every length 0..=200; seeded random and large inputs on top.",
    note="inputs above 3 MiB not driven; valgrind decides only on process death or invalid write/free below a library frame", ref="DESIGN.md section 4 C09"),
- "C10": dict(technique="runtime monitoring: history monitor over recorded nonce fields of N builds under one key (pairwise distinctness, per-bit Hoeffding bound, constant-byte check) repeated in two separate processes with a cross-process comparison, plus RNG fault injection through a guarded hook (no token while the RNG fails)",
+ "C10": dict(technique="runtime monitoring: history monitor over recorded nonce fields of N builds under one key (pairwise distinctness, per-bit Hoeffding bound, constant-byte check) on one thread, on 8-16 threads at once and across idle pauses, repeated in two separate processes with a cross-process comparison, plus RNG fault injection through a guarded hook (no nonce may repeat while the RNG fails)",
    text="For v1-v4 local x {GenericBuilder, PasetoBuilder} x {fresh builder, one builder reused}: 4096 builds (thorough additionally 102400 from 16 threads) with identical claims/footer/assertion; nonces must be pairwise distinct, no byte position constant, every bit frequency within N/2 +- 5.3 sqrt(N); no nonce may occur in both of two separate processes.",
    note="unpredictability proper is out of reach of observation: constants, counters, clocks, message-derived nonces, low entropy and fixed seeds are detected, a statistically clean but weak generator is not", ref="DESIGN.md section 4 C10"),
  "C11": dict(technique="runtime monitoring: time-claim monitor (instant known by construction, renderings from the harness's own calendar arithmetic) over the full UTC-offset x fraction rendering space and a non-timestamp catalogue, against PasetoParser::default(), plus clock-progress histories (the same parser object must change its answer when the claim crosses now)",
@@ -42,19 +42,19 @@ CHECKS = {
  "C12": dict(technique="runtime monitoring: time-claim monitor mirrored for nbf plus the 3x3 (exp, nbf) grid, against PasetoParser::default(), plus clock-progress histories",
    text="As C11 with the direction reversed (reject nbf >= now+60 s, accept <= now-2 s), non-timestamps rejected, and the independent combinations of (exp, nbf) in {past, future, absent} x 3 offsets on all 8 protocols. quick ~3.8e5 evaluations.",
    note="clock margins 2 s / 60 s, stalled cases discarded not failed", ref="DESIGN.md section 4 C11/C12"),
- "C13": dict(technique="runtime monitoring: reference-model monitor (property-level state machine of the batteries-included builder + clock bracket) over exhaustive call words and seeded random histories, including repeated builds",
+ "C13": dict(technique="runtime monitoring: reference-model monitor (property-level state machine of the batteries-included builder + clock bracket) over exhaustive call words and seeded random histories, including repeated builds, pairs of builders with interleaved operations and builders created on a virtual clock (guarded hook)",
    text="All call words up to length 4 (thorough 6) over {set exp/nbf/iat/iss/custom, acknowledge, footer, assertion, build} on v4.local and random words to length 12 on all 8 protocols; every built token is read back and compared with the model: exp present iff not acknowledged, default exp = creation + 1 h exactly, default iat = nbf within the clock bracket, caller values present, nothing else.",
    note="local payloads are read back with the library's decrypt (C01 covers that); 5 ms clock slack", ref="DESIGN.md section 4 C13"),
  "C14": dict(technique="runtime monitoring: claim-map reference-model monitor (last write wins, remove deletes; serde_json equality) over seeded random set/remove histories with JSON trees, native Rust values and typed registered claims, incl. multi-build histories of one builder",
    text="GenericBuilder histories of up to 12 set_claim/remove_claim operations are built and parsed back with a validator-free GenericParser on every protocol; the whole parsed object must equal the harness's model object; one GenericBuilder driven through set/remove/footer/assertion/build steps must emit the model at every build. quick ~3.6e4 evaluations, thorough ~3e6.",
    note="trusted base: serde_json equality and number formatting; value domain restricted as the property states", ref="DESIGN.md section 4 C14"),
- "C15": dict(technique="runtime monitoring: expected-claim monitor (harness-side comparison of token claims S and expected set E, don't-care for int/float spelling) on GenericParser, PasetoParser::new() and ::default(), plus parser-reuse histories and sessions in which an expectation is replaced on the live parser",
+ "C15": dict(technique="runtime monitoring: expected-claim monitor (harness-side comparison of token claims S and expected set E, don't-care for int/float spelling) on GenericParser, PasetoParser::new() and ::default(), plus parser-reuse histories, sessions in which an expectation is replaced on the live parser, two parser objects alive at once, and authentic non-object payloads",
    text="For random S the expectation sets {equal, subset, superset, one value changed, one key changed, null cases} are checked: accept iff no discrepancy, Missing(k) only for a missing k, the error names a failing claim; one parser processing 8 tokens in 4 orders must answer like a fresh parser. quick ~1.1e5 evaluations.",
    note="int-vs-float spellings are don't-care; any failing claim may be the one reported", ref="DESIGN.md section 4 C15"),
- "C16": dict(technique="runtime monitoring: validator call-log monitor (thread-local log written by harness validators, behaviour table) over authentic and forged tokens, registration routes and parser-reuse sequences",
+ "C16": dict(technique="runtime monitoring: validator call-log monitor (thread-local log written by harness validators, behaviour table) over authentic and forged tokens, registration routes, parser-reuse sequences, validators added to a live parser between parses, and authentic non-object payloads",
    text="Validators registered through validate_claim / extend_validation_claims on all parser kinds: no call for any forged token; for authentic tokens each validator sees the real value exactly once, Ok only if all ran and accept, Err only from a rejecting validator/expectation; sequences of mixed tokens through one parser. quick ~1e4 parses.",
    note="validators are harness functions; forgeries are built by construction (wrong key/footer/assertion/header, bit flip, truncation)", ref="DESIGN.md section 4 C16"),
- "C17": dict(technique="runtime monitoring: reference-model monitor (duplicate-key state machine) over exhaustive call words and seeded random histories up to length 40",
+ "C17": dict(technique="runtime monitoring: reference-model monitor (duplicate-key state machine) over exhaustive call words, seeded random histories up to length 40, pairs of builders with interleaved operations and a dictionary of colliding key pairs",
    text="All words up to length 4 (thorough 5) over 9 claim keys + acknowledge + footer + build on v4.local, random words on all 8 protocols: after the first repeated key every build fails with the duplicate error naming a duplicated key; otherwise every build succeeds with the caller's values; exp-after-acknowledgement latitude encoded as two admissible outcomes.",
    note="local payloads are read back with the library's decrypt (C01 covers that)", ref="DESIGN.md section 4 C17"),
  "C18": dict(technique="runtime monitoring: constructor monitor (set-membership oracle; rendering generator; broad ISO 8601 date-prefix recogniser) over an exhaustive small key space, decorated reserved keys, random keys and the RFC 3339 rendering space",
